@@ -1366,6 +1366,18 @@ def verify_variadic_attr_size(
             raise VerifyException(f"expected 0 or 1 values for {name}, but got {l}")
         if not isinstance(d, VariadicDef) and l != 1:
             raise VerifyException(f"expected 1 value for {name}, but got {l}")
+        if l < 0:
+            raise VerifyException(
+                f"expected a non-negative size for {name} in "
+                f"{option.attribute_name}, but got {l}"
+            )
+
+    length = len(get_op_constructs(op, construct))
+    if sum(def_sizes) != length:
+        raise VerifyException(
+            f"the sizes in {option.attribute_name} sum to {sum(def_sizes)}, but the "
+            f"operation has {get_plural_name(length, get_construct_name(construct))}"
+        )
 
 
 def verify_variadic_same_size(
